@@ -150,7 +150,7 @@ def parse_listing(text):
     """--list-tests output -> [(layer, [sid...])]"""
     groups = []
     cur = None
-    for line in text.splitlines():
+    for line in text.split('\n'):
         m = LISTING_RE.match(line)
         if m:
             cur = (m.group(1), [])
@@ -163,7 +163,7 @@ def parse_listing(text):
 def parse_name_block(text, header):
     """Names listed under 'Tests with errors:' / 'Tests with failures:'."""
     out = []
-    lines = text.splitlines()
+    lines = text.split('\n')
     for i, line in enumerate(lines):
         if line == header:
             j = i + 1
